@@ -102,6 +102,10 @@ Ltac known_signs :=
   | H : ?z < 0 |- context [0 <=? ?z] => rewrite (proj2 (Z.leb_gt 0 z) H)
   end.
 Ltac simp := cbn [andb orb negb b2z count_true fold_right].
+(* a count over a symbolic list is an opaque integer for the case analysis *)
+Ltac opaque_counts :=
+  repeat match goal with |- context [fold_right ?f ?a ?l] =>
+    let n := fresh "n" in generalize (fold_right f a l); intro n end.
 Ltac leaf := first [reflexivity | exfalso; lia].
 Ltac tie g :=
   let r := fresh "r" in let e := fresh "e" in
@@ -111,7 +115,7 @@ Ltac tie g :=
   (let v := eval vm_compute in (rp_expr g) in change (rp_expr g) with v);
   ev_step; repeat (unstick Lr Le; ev_step);
   bridge Lr Le; unfold_model;
-  known_signs; closed_atoms; simp; try reflexivity;
+  known_signs; closed_atoms; simp; try reflexivity; opaque_counts;
   repeat (list_atom; simp; try reflexivity);
   repeat (z_atom; closed_atoms; simp; try reflexivity);
   leaf.
